@@ -63,8 +63,9 @@ func (u *Unit) instantiate(hyps []*Term, consts []*Term) []*Term {
 				// then keeps the instances that line the hypothesis up with the goal
 				if pref := "sk_" + boundBaseName(b) + "_"; len(cands) > 1 {
 					var first, rest []*Term
+					wit := "hx_" + boundBaseName(b) + "!"
 					for _, k := range cands {
-						if strings.HasPrefix(k.Name, pref) {
+						if strings.HasPrefix(k.Name, pref) || strings.HasPrefix(k.Name, wit) {
 							first = append(first, k)
 						} else {
 							rest = append(rest, k)
